@@ -314,6 +314,11 @@ func (w *qWorld) applyVoids() {
 				}
 			}
 		}
+		for _, co := range w.cons {
+			if co.ck == c.Key && co.Subscribed && !co.Unbuffered && (!co.Dead || co.DeadStep >= c.VoidStep) && (co.Rdy > 0 || co.rdyStepMax > 0) {
+				c.Tainted = true // an escaped message may sit unseen in its output buffer
+			}
+		}
 		if esc > 0 {
 			w.rc.Probe("escaped_empty")
 			c.Discarded -= esc
@@ -486,6 +491,13 @@ func (w *qWorld) onMessage(co *consumer, f Frame) {
 		}
 	}
 	d.maybeAnswered = ghost
+	if !cm.VoidAt.IsZero() && p.SendSeq < cm.VoidSeq {
+		// the frame may have been written to the output buffer before the
+		// channel was emptied: the message may or may not still be in flight
+		if sl, bounded := co.slack(); !bounded || !f.At.After(cm.VoidAt.Add(sl)) {
+			d.maybeAnswered = true
+		}
+	}
 	if mc.fin && !ghost && !cm.Unordered {
 		w.violate("C02", "delivered-after-fin", "m%06d delivered on %s (attempt %d) after its FIN was accepted", p.N, cm.Key, wm.Attempts)
 		w.violate("C05", "finished-message-reappeared", "m%06d delivered on %s after its FIN was accepted", p.N, cm.Key)
@@ -497,7 +509,22 @@ func (w *qWorld) onMessage(co *consumer, f Frame) {
 		exp = prev.Att + 1
 		prevStep = prev.Step
 	}
-	if wm.Attempts != exp && !cm.Unordered {
+	// receipt order equals send order only if no connection of the channel buffers its output
+	strict := !cm.Unordered
+	for _, o := range w.cons {
+		if o.ck == cm.Key && o.Subscribed && !o.Unbuffered && (!o.Dead || o.DeadStep >= prevStep) {
+			strict = false
+		}
+	}
+	if wm.Attempts < exp && !strict {
+		rc.Probe("attempts_out_of_order_buffered")
+	}
+	if prev == nil && p.lifetime != w.lifetime {
+		// first sighting here of a message from an earlier daemon lifetime
+		// (e.g. a durable channel of an ephemeral topic that was re-created)
+		exp = wm.Attempts
+	}
+	if wm.Attempts != exp && !cm.Unordered && (strict || wm.Attempts > exp) {
 		gapOK := false
 		if wm.Attempts > exp {
 			ends := 0
@@ -523,7 +550,7 @@ func (w *qWorld) onMessage(co *consumer, f Frame) {
 	}
 	// ---- C02 / C04: not before REQ delay or timeout
 	sameLife := prev != nil && prev.lifetime == w.lifetime
-	if prev != nil && !prev.Voided && sameLife && !prev.maybeAnswered && !cm.Unordered && !touchGhost {
+	if prev != nil && !prev.Voided && sameLife && !prev.maybeAnswered && !cm.Unordered && !touchGhost && (strict || prev.Att < wm.Attempts) {
 		switch {
 		case prev.Answer == "req" && (!prev.AnsKnown || prev.AnsOK):
 			delay := prev.ReqDelay
@@ -1062,19 +1089,46 @@ func (w *qWorld) drain() {
 	}
 	w.settle()
 	bound := ms(w.cfg.MaxMsgTimeoutMs) + ms(w.cfg.MaxReqTimeoutMs) + 2*ms(w.cfg.ScanRefreshMs) + 10*time.Second
+	// The timeout/deferred scan visits a random subset of the channels per
+	// tick. With fewer selections than channels a given channel is visited
+	// with probability sel/n per tick; allow enough ticks for a miss
+	// probability below 1e-12.
+	nch := 0
+	for _, c := range w.chans {
+		if c.Exists || c.Uncertain {
+			nch++
+		}
+	}
+	if nch > w.cfg.ScanSelCount && w.cfg.ScanSelCount > 0 {
+		ticks := 28 * (nch + w.cfg.ScanSelCount - 1) / w.cfg.ScanSelCount
+		bound += time.Duration(ticks) * ms(w.cfg.ScanIntervalMs)
+	}
 	stepD := bound / 40
 	var spent time.Duration
 	for {
 		w.beginStep()
 		w.settle()
-		for _, co := range drainers {
-			for _, d := range heldOf(co) {
-				d.Answer, d.AnsAt, d.AnsStep = "fin", time.Now(), w.epoch
-				d.mc.noteCmd(co)
-				co.cl.Cmd("FIN "+d.mc.pub.ID, nil)
+		// finish everything that arrives without letting time pass (a drainer
+		// with a small RDY gets the backlog one message at a time)
+		for i := 0; i < 2000; i++ {
+			sent := 0
+			for _, co := range drainers {
+				for _, d := range heldOf(co) {
+					d.Answer, d.AnsAt, d.AnsStep = "fin", time.Now(), w.epoch
+					d.mc.noteCmd(co)
+					co.cl.Cmd("FIN "+d.mc.pub.ID, nil)
+					sent++
+				}
+			}
+			if sent == 0 {
+				break
+			}
+			w.beginStep()
+			w.settle()
+			if rc.Failed() {
+				return
 			}
 		}
-		w.settle()
 		if rc.Failed() {
 			return
 		}
@@ -1091,7 +1145,22 @@ func (w *qWorld) drain() {
 			}
 			w.violate("C01", "message-lost", "%d acknowledged message(s) not finished %v after faults stopped; first: m%06d (%s via %s, defer %dms) on %s: %s",
 				len(owed), spent, mc.pub.N, mc.pub.ID, mc.pub.Via, mc.pub.DeferMs, mc.ck, st)
-			w.violate("C05", "message-lost-across-restart", "%d acknowledged message(s) not delivered after restart; first: m%06d on %s: %s", len(owed), mc.pub.N, mc.ck, st)
+			for i, o := range owed {
+				if i < 6 {
+					rc.Logf("owed: m%06d on %s via %s pubLifetime=%d readyAtExit=%v acked=%v dels=%d", o.pub.N, o.ck, o.pub.Via, o.pub.lifetime, w.readyAtExit[o.ck], o.pub.Acked, len(o.dels))
+				}
+			}
+			explained := w.lifetime > 1
+			for _, o := range owed {
+				if !w.readyAtExit[o.ck] || o.pub.lifetime == w.lifetime {
+					explained = false
+				}
+			}
+			if explained {
+				w.violate("C05", "lost-at-exit-taken-by-consumer-pump", "%d acknowledged message(s) not delivered after restart, %d message(s) were taken from a closing channel by a delivery pump whose connection was already closed; first: m%06d on %s: %s", len(owed), w.stolenAtExit, mc.pub.N, mc.ck, st)
+			} else if w.lifetime > 1 {
+				w.violate("C05", "message-lost-across-restart", "%d acknowledged message(s) not delivered after restart; first: m%06d on %s: %s", len(owed), mc.pub.N, mc.ck, st)
+			}
 			return
 		}
 		time.Sleep(stepD)
@@ -1157,6 +1226,18 @@ func (w *qWorld) opRestart(op Op) {
 	}
 	rc.Logf("---- graceful exit requested (pending=%d)", len(w.pending))
 	n := w.n
+	// channels that have a connected consumer able to receive (RDY > 0) when
+	// the shutdown is requested: its delivery pump may still be running while
+	// the channel is flushed (known finding C05/pump-takes-message-at-exit)
+	if w.readyAtExit == nil {
+		w.readyAtExit = map[string]bool{}
+	}
+	for _, co := range w.cons {
+		if co.Subscribed && (!co.Dead || co.DeadStep >= w.epoch) && (co.Rdy > 0 || co.rdyStepMax > 0) && !co.Closing {
+			w.readyAtExit[co.ck] = true
+		}
+	}
+	pumpErr0 := rc.probes["log_messagepump_error"]
 	exitDone := make(chan struct{})
 	go func() { n.Exit(); close(exitDone) }()
 	for _, f := range w.pending {
@@ -1205,12 +1286,24 @@ func (w *qWorld) opRestart(op Op) {
 		t.AckedMsgs, t.AckedBytes, t.UnknownMsgs, t.UnknownBytes = 0, 0, 0, 0
 	}
 	synctest.Wait()
+	// A consumer's delivery pump that was still running during the shutdown
+	// and failed to write to its (already closed) connection had taken a
+	// message out of the queue: see known finding C05/pump-steals-at-exit.
+	w.stolenAtExit += rc.probes["log_messagepump_error"] - pumpErr0
+	time.Sleep(5 * time.Millisecond) // a process restart is not instantaneous (id generator: new millisecond)
 	if err := w.startNSQD(); err != nil {
 		w.violate("C05", "restart-failed", "nsqd did not start again on the same data path: %v", err)
 		w.violate("C01", "restart-failed", "nsqd did not start again on the same data path: %v", err)
 		return
 	}
 	rc.Probe("restarts")
+	if doc, _ := w.getStats(""); doc != nil {
+		for _, t := range doc.Topics {
+			for _, c := range t.Channels {
+				rc.Logf("after restart: %s/%s depth=%d backend=%d topic depth=%d files=%v", t.TopicName, c.ChannelName, c.Depth, c.BackendDepth, t.Depth, listDataFiles(rc.Dir))
+			}
+		}
+	}
 	w.checkRegistry("C05")
 }
 
